@@ -6,43 +6,46 @@
        Inv_Doc   Accepted / Quiet / Validates / Identity           for the document
        Inv_Elem  Exposed / Absent / ShadowedServed / <flag clauses> for every element the document states
 
-   Code = {}           every family must pass (the pair in which C15 holds)
-   Code = {d}          Accept_w_<d>.cfg: TLC has to produce a counterexample (the deviation is not vacuous)
+   Accept_quick / Accept_full   Code = Known = the deviations the code has today (recorded findings): every family passes
+   Accept_ideal                 Code = Known = {}: the pair in which C15 holds without exception
+   Accept_w_<d>                 a repaired deviation d switched back on: TLC has to produce a counterexample
+   Accept_k_<d>                 a recorded finding d taken out of Known: TLC has to produce a counterexample (it is real in the model)
    The nodes respect what the scanner's passes guarantee about what reaches the writer (Closed below: C05's closure,
    transfer stated on introspectable callables, ...) EXCEPT where a producer-side deviation of Code lifts the guarantee. *)
 EXTENDS Accept
 
-CONSTANT Families                  \* subset of FamilyNames
+CONSTANTS Known,                   \* deviations of Code that are recorded findings: what follows from them alone is tolerated
+          Families,                \* subset of FamilyNames
+          Full                     \* TRUE: the whole cross products (thorough tier); FALSE: every dimension against a base value
 FamilyNames == {"value", "callable", "members", "compound", "types", "flags"}
 
 (* ============================================================== the GIR states: element records read off the document *)
-RECURSIVE CloseAt(_, _, _)
-CloseAt(doc, i, depth) == IF doc[i].e = "s" THEN CloseAt(doc, i + 1, depth + 1) ELSE IF depth = 1 THEN i ELSE CloseAt(doc, i + 1, depth - 1)
-EndOf(doc, i) == CloseAt(doc, i + 1, 1)
-RECURSIVE KidsFrom(_, _, _)
-KidsFrom(doc, j, stop) == IF j >= stop THEN <<>> ELSE <<j>> \o KidsFrom(doc, EndOf(doc, j) + 1, stop)
-Kids(doc, i) == KidsFrom(doc, i + 1, EndOf(doc, i))
-KidsTagged(doc, i, tags) == SelectSeq(Kids(doc, i), LAMBDA j : doc[j].tag \in tags)
+\* parent index of every start event (0 = none; -1 for end events), by one fold over the events
+Parents(doc) == FoldLeft(LAMBDA acc, k : IF doc[k].e = "s"
+                                          THEN [stack |-> Append(acc.stack, k), par |-> Append(acc.par, IF acc.stack = <<>> THEN 0 ELSE acc.stack[Len(acc.stack)])]
+                                          ELSE [stack |-> SubSeq(acc.stack, 1, Len(acc.stack) - 1), par |-> Append(acc.par, -1)],
+                         [stack |-> <<>>, par |-> <<>>], [k \in 1..Len(doc) |-> k]).par
+KidsTagged(doc, P, i, tags) == SelectSeq([k \in 1..Len(doc) |-> k], LAMBDA j : P[j] = i /\ doc[j].tag \in tags)
 At(at, n) == GetOr(at, n, "")
 
 GValue(at) == [name |-> At(at, "name"), direction |-> At(at, "direction"), ca |-> At(at, "caller-allocates"), transfer |-> At(at, "transfer-ownership"),
                nullable |-> At(at, "nullable"), allowNone |-> At(at, "allow-none"), optional |-> At(at, "optional"), scope |-> At(at, "scope"),
                closure |-> IF Has(at, "closure") THEN StrInt(Get(at, "closure")) ELSE -1,
                destroy |-> IF Has(at, "destroy") THEN StrInt(Get(at, "destroy")) ELSE -1, skip |-> At(at, "skip")]
-GCallable(doc, i) ==
+GCallable(doc, P, i) ==
     LET at == doc[i].at
-        rv == KidsTagged(doc, i, {"return-value"})
-        ps == KidsTagged(doc, i, {"parameters"})
-        pl == IF ps = <<>> THEN <<>> ELSE KidsTagged(doc, ps[1], {"parameter"})
-        ins == IF ps = <<>> THEN <<>> ELSE KidsTagged(doc, ps[1], {"instance-parameter"}) IN
+        rv == KidsTagged(doc, P, i, {"return-value"})
+        ps == KidsTagged(doc, P, i, {"parameters"})
+        pl == IF ps = <<>> THEN <<>> ELSE KidsTagged(doc, P, ps[1], {"parameter"})
+        ins == IF ps = <<>> THEN <<>> ELSE KidsTagged(doc, P, ps[1], {"instance-parameter"}) IN
     [throws |-> At(at, "throws"), setProp |-> At(at, "glib:set-property"), getProp |-> At(at, "glib:get-property"), invoker |-> At(at, "invoker"),
      hasRet |-> rv # <<>>, ret |-> IF rv # <<>> THEN GValue(doc[rv[1]].at) ELSE GValue(<<>>),
      hasInst |-> ins # <<>>, inst |-> IF ins # <<>> THEN At(doc[ins[1]].at, "transfer-ownership") ELSE "",
      params |-> [k \in 1..Len(pl) |-> GValue(doc[pl[k]].at)],
      when |-> At(at, "when"), noRecurse |-> At(at, "no-recurse"), detailed |-> At(at, "detailed"), action |-> At(at, "action"), noHooks |-> At(at, "no-hooks")]
-GFlags(doc, i) ==
+GFlags(doc, P, i) ==
     LET tag == doc[i].tag at == doc[i].at IN
-    CASE tag \in CallableTags -> GCallable(doc, i)
+    CASE tag \in CallableTags -> GCallable(doc, P, i)
       [] tag = "property" -> [readable |-> At(at, "readable"), writable |-> At(at, "writable"), construct |-> At(at, "construct"),
                               constructOnly |-> At(at, "construct-only"), transfer |-> At(at, "transfer-ownership"),
                               setter |-> At(at, "setter"), getter |-> At(at, "getter")]
@@ -52,30 +55,31 @@ GFlags(doc, i) ==
       [] tag \in {"class", "interface"} ->
             [parent |-> At(at, "parent"), abstract |-> At(at, "abstract"), final |-> At(at, "final"), fundamental |-> At(at, "glib:fundamental"),
              typeName |-> At(at, "glib:type-name"), getType |-> At(at, "glib:get-type"), typeStruct |-> At(at, "glib:type-struct"),
-             implements |-> [k \in 1..Len(KidsTagged(doc, i, {"implements"})) |-> At(doc[KidsTagged(doc, i, {"implements"})[k]].at, "name")],
-             prerequisites |-> [k \in 1..Len(KidsTagged(doc, i, {"prerequisite"})) |-> At(doc[KidsTagged(doc, i, {"prerequisite"})[k]].at, "name")]]
+             implements |-> [k \in 1..Len(KidsTagged(doc, P, i, {"implements"})) |-> At(doc[KidsTagged(doc, P, i, {"implements"})[k]].at, "name")],
+             prerequisites |-> [k \in 1..Len(KidsTagged(doc, P, i, {"prerequisite"})) |-> At(doc[KidsTagged(doc, P, i, {"prerequisite"})[k]].at, "name")]]
       [] tag \in {"record", "union", "glib:boxed"} ->
             [typeName |-> At(at, "glib:type-name"), getType |-> At(at, "glib:get-type"), foreign |-> At(at, "foreign"),
              gtypeStructFor |-> At(at, "glib:is-gtype-struct-for"), copyFunc |-> At(at, "copy-function"), freeFunc |-> At(at, "free-function")]
       [] tag \in {"enumeration", "bitfield"} ->
-            LET ms == SelectSeq(KidsTagged(doc, i, {"member"}), LAMBDA j : At(doc[j].at, "introspectable") # "0") IN
+            LET ms == SelectSeq(KidsTagged(doc, P, i, {"member"}), LAMBDA j : At(doc[j].at, "introspectable") # "0") IN
             [typeName |-> At(at, "glib:type-name"), getType |-> At(at, "glib:get-type"), errorDomain |-> At(at, "glib:error-domain"),
              members |-> [k \in 1..Len(ms) |-> <<At(doc[ms[k]].at, "name"), At(doc[ms[k]].at, "value")>>]]
       [] OTHER -> [none |-> TRUE]
-GElem(doc, i, level, owner, ownerTag, anc0) ==
+GElem(doc, P, i, level, owner, ownerTag, anc0) ==
     LET tag == doc[i].tag at == doc[i].at IN
     [tag |-> tag, name |-> IF tag = "glib:boxed" THEN At(at, "glib:name") ELSE At(at, "name"), cid |-> At(at, "c:identifier"), level |-> level,
      owner |-> owner, ownerTag |-> ownerTag, marked0 |-> At(at, "introspectable") = "0", anc0 |-> anc0, shadows |-> At(at, "shadows"),
-     shadowedBy |-> At(at, "shadowed-by"), movedTo |-> At(at, "moved-to"), deprecated |-> At(at, "deprecated"), ns |-> "Foo", fl |-> GFlags(doc, i)]
+     shadowedBy |-> At(at, "shadowed-by"), movedTo |-> At(at, "moved-to"), deprecated |-> At(at, "deprecated"), ns |-> "Foo", fl |-> GFlags(doc, P, i)]
 TopTags == {"function", "callback", "enumeration", "bitfield", "class", "interface", "record", "union", "glib:boxed", "constant"}
 MemberTags == {"method", "constructor", "function", "virtual-method", "property", "glib:signal", "field", "member", "constant"}
 ContainerTags == {"class", "interface", "record", "union", "glib:boxed", "enumeration", "bitfield"}
 NsIndex(doc) == CHOOSE i \in 1..Len(doc) : doc[i].e = "s" /\ doc[i].tag = "namespace"
 ElemsOf(doc) ==
-    LET tops == KidsTagged(doc, NsIndex(doc), TopTags) IN
-    {GElem(doc, tops[k], "top", "", "", FALSE) : k \in 1..Len(tops)}
-    \cup UNION { LET i == tops[k] g == GElem(doc, i, "top", "", "", FALSE) ms == KidsTagged(doc, i, MemberTags) IN
-                 IF doc[i].tag \in ContainerTags THEN {GElem(doc, ms[m], "member", g.name, g.tag, g.marked0) : m \in 1..Len(ms)} ELSE {}
+    LET P == Parents(doc)
+        tops == KidsTagged(doc, P, NsIndex(doc), TopTags) IN
+    {GElem(doc, P, tops[k], "top", "", "", FALSE) : k \in 1..Len(tops)}
+    \cup UNION { LET i == tops[k] g == GElem(doc, P, i, "top", "", "", FALSE) ms == KidsTagged(doc, P, i, MemberTags) IN
+                 IF doc[i].tag \in ContainerTags THEN {GElem(doc, P, ms[m], "member", g.name, g.tag, g.marked0) : m \in 1..Len(ms)} ELSE {}
                  : k \in 1..Len(tops) }
 
 (* ============================================================================================== abstract nodes *)
@@ -111,22 +115,24 @@ Ctx == <<Rec("record", "Rec"), [Rec("record", "Hidden") EXCEPT !.intro = FALSE],
 B == BOOLEAN
 
 (* ---- family "value": one function, one parameter and one return value over the attribute cross product *)
-Dirs == {<<"in", FALSE>>, <<"out", FALSE>>, <<"out", TRUE>>, <<"inout", FALSE>>}
+Dirs == {<<"in", FALSE>>, <<"out", FALSE>>, <<"out", TRUE>>, <<"inout", FALSE>>} \cup (IF Dev("inout_caller_allocates") THEN {<<"inout", TRUE>>} ELSE {})
 \* IntrospectablePass: a value of an introspectable callable has a transfer and a resolved type -- unless it is skipped (deviation)
-ValueSpace == {[V0 EXCEPT !.dir = d[1], !.ca = d[2], !.transfer = t, !.nullable = n, !.optional = o, !.scope = s, !.closure = cl, !.skip = sk,
-                          !.type = ty] :
-                 d \in Dirs, t \in {"none", "full", "container", ""}, n \in B, o \in B, s \in {"", "call", "notified"}, cl \in {-1, 1}, sk \in B,
-                 ty \in {TNamed("gint"), TUnres}}
-ClosedValue(v) == (v.transfer # "" /\ v.type.k # "unresolved") \/ (Dev("skipped_value") /\ v.skip)
+ValueCore == {[V0 EXCEPT !.dir = d[1], !.ca = d[2], !.transfer = t, !.nullable = n, !.optional = o, !.skip = sk, !.type = ty] :
+                 d \in Dirs, t \in {"none", "full", "container", ""}, n \in B, o \in B, sk \in B, ty \in {TNamed("gint"), TUnres}}
+ValueSpace == IF Full THEN {[v EXCEPT !.scope = s, !.closure = cl, !.destroy = ds] : v \in ValueCore, s \in {"", "call", "notified"}, cl \in {-1, 1}, ds \in {-1, 1}}
+              ELSE ValueCore \cup {[V0 EXCEPT !.dir = d[1], !.ca = d[2], !.scope = s, !.closure = cl, !.destroy = ds] :
+                                      d \in Dirs, s \in {"", "call", "async", "notified", "forever"}, cl \in {-1, 1}, ds \in {-1, 1}}
+\* (an unresolved type demotes the callable whether the value is skipped or not: _analyze_node looks at every parameter type)
+ClosedValue(v) == v.type.k # "unresolved" /\ (v.transfer # "" \/ (Dev("skipped_value") /\ v.skip))
 RetSpace == {[R0 EXCEPT !.transfer = t, !.nullable = n, !.skip = sk, !.type = ty] : t \in {"none", "full", ""}, n \in B, sk \in B, ty \in {TNamed("utf8"), TUnres}}
-ValueCases ==
+ValueCases(z) ==
     {<<[Fn("function", "f", "") EXCEPT !.params = <<v, [V0 EXCEPT !.name = "y"]>>]>> : v \in {v \in ValueSpace : ClosedValue(v)}}
     \cup {<<[k EXCEPT !.ret = r]>> : r \in {r \in RetSpace : ClosedValue(r)}, k \in {Fn("function", "f", ""), Cb("C")}}
     \cup {<<[Cls("class", "K") EXCEPT !.vfuncs = <<[VF("v", "K") EXCEPT !.ret = r]>>, !.signals = <<[Sig("s") EXCEPT !.ret = r]>>]>> :
               r \in {r \in RetSpace : ClosedValue(r) /\ r.type.k # "unresolved"}}
 
 (* ---- family "callable": kinds x generic attributes x renames *)
-CallableCases ==
+CallableCases(z) ==
     \* top-level functions: introspectable / deprecated / throws / inline / moved-to
     {<<[Fn("function", "f", "") EXCEPT !.intro = i, !.deprecated = d, !.throws = t, !.inline = inl, !.movedTo = mv, !.attrs = a,
                                         !.internalSkipped = (mv # "" /\ ~i)]>> : i \in B, d \in B, t \in B, inl \in B, mv \in {"", "Rec.f"}, a \in B}
@@ -151,7 +157,7 @@ CallableCases ==
 (* ---- family "members": a class whose members name each other; any of them may be hidden *)
 \* the passes drop or hide a reference to a member that is not introspectable -- unless the deviation
 Target(name, targetIntro) == IF targetIntro \/ Dev("hidden_target") THEN name ELSE ""
-MemberCases ==
+MemberCases(z) ==
     {<<[Cls("class", "K") EXCEPT
           !.methods = <<[Fn("method", "set_p", "K") EXCEPT !.intro = mi, !.setProp = Target("p", pi)],
                         [Fn("method", "get_p", "K") EXCEPT !.getProp = Target("p", pi)],
@@ -162,13 +168,13 @@ MemberCases ==
           !.typeStruct = Target("KClass", ci)],
        [Rec("record", "KClass") EXCEPT !.gtypeStructFor = "K", !.intro = ci,
                                        !.fields = <<[CbFld("do_it", [Cb("do_it") EXCEPT !.intro = cbi]) EXCEPT !.intro = (cbi \/ Dev("callback_field")) /\ fi]>>]>> :
-       mi \in B, pi \in B, di \in B, vi \in B, si \in B, ci \in B, cbi \in B, fi \in B}
+       mi \in B, pi \in B, di \in B, vi \in B, si \in (IF Full THEN B ELSE {TRUE}), ci \in B, cbi \in B, fi \in (IF Full THEN B ELSE {TRUE})}
     \* a class all of whose methods are hidden while a property still names one (get_index_of_member_type returns -1 only then)
     \cup {<<[Cls("class", "K") EXCEPT !.methods = <<[Fn("method", "set_p", "K") EXCEPT !.intro = FALSE]>>,
                                       !.props = <<[Prop("p") EXCEPT !.setter = Target("set_p", FALSE)]>>]>>}
 
 (* ---- family "compound": fields, anonymous members, enumeration members *)
-CompoundCases ==
+CompoundCases(z) ==
     {<<[Rec(tag, "R") EXCEPT !.fields = <<[Fld("a") EXCEPT !.intro = i, !.readable = r, !.writable = w, !.private = ~r, !.bits = b,
                                                      !.type = IF i THEN TNamed("gint") ELSE TUnres],
                                           Fld("z")>>, !.intro = ri]>> :
@@ -196,7 +202,7 @@ TypeSpace(intro) == {TNamed("gint"), TNamed("utf8"), TNamed("Rec"), TNamed("Al")
 Aliases == <<Ali("Al", TNamed("gint")), Ali("Al2", TNamed("Al")), Ali("AlRec", TNamed("Rec")), [Ali("AlHidden", TNamed("Hidden")) EXCEPT !.intro = FALSE],
              [Ali("AlUnres", TUnres) EXCEPT !.intro = FALSE], [Ali("AlAttr", TNamed("gint")) EXCEPT !.attrs = TRUE, !.doc = TRUE]>>
 IntroType == {p \in B \X TypeSpace(FALSE) : p[2] \in TypeSpace(p[1])}
-TypeCases ==
+TypeCases(z) ==
     {Aliases \o <<[Fn("function", "f", "") EXCEPT !.intro = p[1], !.params = <<[V0 EXCEPT !.type = p[2]], [V0 EXCEPT !.name = "n"]>>,
                                                    !.ret.type = IF p[2].k = "varargs" THEN TNamed("gint") ELSE p[2], !.ret.transfer = "none"]>> :
         p \in IntroType}
@@ -210,19 +216,22 @@ TypeCases ==
                                   p[2].k = "unresolved" => (~p[1] \/ Dev("constant_type"))}}
 
 (* ---- family "flags": properties, signals, classes, interfaces *)
-FlagCases ==
+FlagCases(z) ==
     {<<[Cls(tag, "K") EXCEPT !.props = <<[Prop("p") EXCEPT !.readable = r, !.writable = w, !.construct = c, !.constructOnly = co, !.transfer = t,
                                                           !.deprecated = d, !.intro = i]>>]>> :
-        tag \in {"class", "interface"}, r \in B, w \in B, c \in B, co \in B, t \in {"none", "full", "container", ""}, d \in B, i \in B}
+        tag \in (IF Full THEN {"class", "interface"} ELSE {"class"}), r \in B, w \in B, c \in B, co \in B,
+        t \in (IF Full THEN {"none", "full", "container", ""} ELSE {"full", ""}), d \in B, i \in B}
     \cup {<<[Cls(tag, "K") EXCEPT !.signals = <<[Sig("s") EXCEPT !.when = w, !.noRecurse = nr, !.detailed = dt, !.action = a, !.noHooks = nh,
                                                                 !.deprecated = d, !.intro = i, !.params = IF a THEN <<V0>> ELSE <<>>]>>]>> :
-              tag \in {"class", "interface"}, w \in {"", "first", "last", "cleanup"}, nr \in B, dt \in B, a \in B, nh \in B, d \in B, i \in B}
+              tag \in (IF Full THEN {"class", "interface"} ELSE {"interface"}),
+              w \in {"", "first", "last", "cleanup"} \cup (IF Dev("when_must_collect") THEN {"must-collect"} ELSE {}), nr \in B, dt \in B, a \in B,
+              nh \in B, d \in (IF Full THEN B ELSE {TRUE}), i \in (IF Full THEN B ELSE {TRUE})}
     \cup {<<[Cls("class", "Base") EXCEPT !.intro = TRUE], [Cls("interface", "Ifc") EXCEPT !.intro = TRUE],
             [Cls("class", "K") EXCEPT !.parent = p, !.abstract = ab, !.final = fi, !.fundamental = fu, !.ifaces = ifs, !.deprecated = d, !.intro = i,
                                       !.typeStruct = ts],
             [Rec("record", "KClass") EXCEPT !.gtypeStructFor = "K"]>> :
-              p \in {"", "GObject.Object", "Base"}, ab \in B, fi \in B, fu \in B, ifs \in {<<>>, <<"Ifc">>, <<"Gio.Iface", "Ifc">>}, d \in B, i \in B,
-              ts \in {"", "KClass"}}
+              p \in {"", "GObject.Object", "Base"}, ab \in B, fi \in B, fu \in (IF Full THEN B ELSE {FALSE}), ifs \in {<<>>, <<"Ifc">>, <<"Gio.Iface", "Ifc">>},
+              d \in (IF Full THEN B ELSE {TRUE}), i \in B, ts \in {"", "KClass"}}
     \cup {<<[Cls("interface", "Ifc") EXCEPT !.intro = TRUE],
             [Cls("interface", "I") EXCEPT !.ifaces = ifs, !.deprecated = d, !.intro = i, !.vfuncs = <<[VF("v", "I") EXCEPT !.throws = t]>>]>> :
               ifs \in {<<>>, <<"Ifc">>, <<"GObject.Object", "Ifc">>}, d \in B, i \in B, t \in B}
@@ -231,8 +240,9 @@ FlagCases ==
     \cup {<<[Bxd("Bx") EXCEPT !.attrs = a]>> : a \in B}
     \cup {<<G0 @@ [tag |-> "function-macro", name |-> "M"], G0 @@ [tag |-> "docsection", name |-> "sec"], Fn("function", "f", "")>>}
 
-CasesOf(f) == CASE f = "value" -> ValueCases [] f = "callable" -> CallableCases [] f = "members" -> MemberCases
-                [] f = "compound" -> CompoundCases [] f = "types" -> TypeCases [] f = "flags" -> FlagCases [] OTHER -> {}
+\* (behind an operator with a dummy argument: TLC evaluates zero-arity constant-level definitions at start-up, once per worker)
+CasesOf(f) == CASE f = "value" -> ValueCases(0) [] f = "callable" -> CallableCases(0) [] f = "members" -> MemberCases(0)
+                [] f = "compound" -> CompoundCases(0) [] f = "types" -> TypeCases(0) [] f = "flags" -> FlagCases(0) [] OTHER -> {}
 
 (* ================================================================================================ state machine *)
 VARIABLES fam, doc, i, ctx, pc
@@ -243,7 +253,7 @@ DocOf(case) == WRepository(IF case # <<>> /\ case[1].tag = "alias" THEN case \o 
 Init == \E f \in Families : \E case \in CasesOf(f) :
             /\ fam = f
             /\ doc = DocOf(case)
-            /\ LET fp == FirstPass(doc, 1, "", EmptyMap, "") IN ctx = InitCtx(fp.map, fp.err)
+            /\ LET fp == FirstPass(doc) IN ctx = InitCtx(fp.map, fp.err)
             /\ i = 1
             /\ pc = "parse"
 Parse == /\ pc = "parse" /\ i <= Len(doc) /\ ctx.err = ""
@@ -263,8 +273,25 @@ DocB == LET berr == IF ctx.err = "" THEN BuildErrors(ctx) ELSE {}
             ok == ctx.err = "" /\ berr = {} IN
         [rc |-> IF ok THEN 0 ELSE 1, flagged |-> bad, produced |-> ok, decoded |-> ok, revalidated |-> IF ok THEN "ok" ELSE "not-run",
          ns |-> "Foo", version |-> "1.0"]
-Inv_Doc == pc = "done" => \A c \in DocNames : DocClauses(DocG, DocB)[c]
-Inv_Elem == (pc = "done" /\ DocB.rc = 0) => \A g \in ElemsOf(doc) : \A c \in ElemNames : ElemClauses(g, Cands(ctx, g))[c]
+(* a failing clause is tolerated when it follows from recorded findings alone *)
+Kn(d) == d \in Known
+DocExcused ==
+    /\ ctx.warns = <<>>
+    /\ ctx.err \in {""} \cup (IF Kn("nested_same_kind") THEN {AbortSameState} ELSE {})
+    /\ (ctx.err = "" => BuildErrorsNull(ctx) = {})
+    /\ (ctx.err = "" => (BuildErrorsUnresolved(ctx) = {} \/ Kn("hidden_target")))
+ElemExcused(c, g, b) ==
+    \/ Kn("field_kept") /\ c = "Absent" /\ g.tag = "field"
+    \/ Kn("member_kept") /\ c = "Absent" /\ g.tag = "member"
+    \/ Kn("inout_allow_none") /\ c = "ParamOptional" /\ OnlyInoutAllowNone(g, b)
+    \/ Kn("inout_caller_allocates") /\ c = "ParamCallerAllocates" /\ OnlyInoutCallerAllocates(g, b)
+    \/ Kn("field_readable") /\ c = "FieldFlags" /\ g.fl.readable # "" /\ The(g, b).fl.writable = Writable(g.fl.writable)
+    \/ Kn("silent_index") /\ c \in {"VFuncInvoker", "PropAccessors", "Accessor"} /\ TargetAbsent(g, b, c)
+    \/ Kn("shadower_hidden") /\ c = "ShadowedServed"
+    \/ Kn("when_must_collect") /\ c = "SignalWhen" /\ g.fl.when = "must-collect"
+Inv_Doc == pc = "done" => ((\A c \in DocNames : DocClauses(DocG, DocB)[c]) \/ DocExcused)
+Inv_Elem == (pc = "done" /\ DocB.rc = 0) =>
+                \A g \in ElemsOf(doc) : LET b == Cands(ctx, g) cl == ElemClauses(g, b) IN \A c \in ElemNames : cl[c] \/ ElemExcused(c, g, b)
 \* the parser model never ends anywhere but in STATE_END with an empty stack when it accepted the document
 Inv_Balanced == (pc = "done" /\ ctx.err = "") => (ctx.st = "END" /\ ctx.stack = <<>> /\ ctx.typed = 0)
 =============================================================================
